@@ -212,7 +212,7 @@ func New() Engine { return &wsEngine{} }
 
 func (e *wsEngine) listener() net.Listener {
 	if e.ln == nil {
-		ln, err := net.Listen("tcp", "127.0.0.1:0")
+		ln, err := ListenRetry("tcp", "127.0.0.1:0")
 		if err != nil {
 			panic(err)
 		}
